@@ -103,19 +103,37 @@ def classify_crash(case, obs):
     return ("crash", "the implementation raised %s" % err, None)
 
 
-def check(case, obs):
+def check(case, obs, notes=None):
+    """-> failures (key, message).  `notes`: observations about things the property leaves free (stored edge rotations, extra
+    attributes left on the mesh, whether a too-early stage call is refused): collected for the evidence, never a violation"""
     fails = []
+    notes = notes if notes is not None else []
     elem, order = case["elem"], case["order"]
     V = np.array(case["V"], dtype=float)
     F = case["F"]
     final = np.array([complex(a, b) for a, b in obs["final"]])
     var0 = np.array([complex(a, b) for a, b in obs["var0"]])
     n = len(final)
-    fixed, free = obs["fixed"], obs["free"]
     has_feat = len(obs["feat"]) > 0
+    # the constrained / free elements as the property words them (not read from the implementation's work attributes)
+    fixed, free = OWN.partition(n, F, obs["edges"], obs["feat"], elem)
+
+    # ---- the reference, independent of how the implementation solves: operator rebuilt from the geometry (in the tangent
+    #      bases the implementation chose - a gauge), and the harmonic extension of the observed constraints under it
+    L_ref = z_ref = None
+    try:
+        if elem == "faces":
+            L_ref = OWN.lap_faces(V, F, obs["edges"], obs["feat"], order, case.get("cotan", True), bases=obs["bases"])
+        else:
+            L_ref = OWN.lap_vertices(V, F, order, case.get("cotan", True), {(a, b): complex(c_, s_) for a, b, c_, s_ in obs["transport"]})
+        if has_feat and np.all(np.isfinite(var0)):
+            z_ref = OWN.harmonic_extension(L_ref, var0, fixed, free)
+    except Exception:  # noqa - reported by the operator clause below
+        L_ref = z_ref = None
+    zmax = max(1.0, float(np.abs(z_ref).max())) if z_ref is not None else 1.0
+    solved = {i: abs(z_ref[i]) for i in free} if z_ref is not None else {}   # |harmonic extension| at the free elements
 
     # ---- every value is a number; unit modulus on every element.  EVERY offending element is classified.
-    solved = first_solve_abs(obs)      # element -> |x| of the first linear solve (free elements of the bordered branch)
     fixedset = set(fixed) if has_feat else set()
     for i in range(n):
         if not np.isfinite(final[i]):
@@ -146,14 +164,14 @@ def check(case, obs):
         elif (not has_feat) and obs["n_boundary_edges"] == 0 and case["n_smooth"] == 0 and eigen_vanishes(case, obs, i):
             fails.append(("unit/zero-eigenvector", "element %d has modulus %.3g: closed surface without features, and the eigenvector of the "
                                                    "smallest (simple) eigenvalue of the observed operator vanishes at this element" % (i, mod_i)))
-        elif has_feat and i not in fixedset and i in solved and solved[i] <= 1.0000001e-10:
-            fails.append(("unit/zero-solution", "free element %d has modulus %.3g: its solved value %.3g is below the 1e-10 "
-                                                "threshold and is left as it is" % (i, mod_i, solved[i])))
+        elif has_feat and i not in fixedset and i in solved and solved[i] <= 1e-8 * zmax:
+            fails.append(("unit/zero-solution", "free element %d has modulus %.3g: the harmonic extension of the constraints vanishes "
+                                                "there (|z| = %.3g in the oracle's own solve), nothing to normalise" % (i, mod_i, solved[i])))
         else:
             fails.append(("unit/zero-unexplained", "element %d (%s) has modulus %.3g although %s"
                           % (i, "constrained" if i in fixedset else "free", mod_i,
                              "its constraint is %.3g" % abs(var0[i]) if i in fixedset else
-                             ("its solved value was %.3g" % solved[i] if i in solved else "no linear solve produced it"))))
+                             ("the harmonic extension is %.3g there" % solved[i] if i in solved else "no harmonic extension explains it"))))
 
     # ---- constrained elements stay at their constraint
     if has_feat:
@@ -167,15 +185,22 @@ def check(case, obs):
     #      directions of its feature edges (skipped where the edges conflict: the accumulation rule then depends on the
     #      iteration order - known finding gauge/conflicting-vertex-constraints)
     if elem == "vertices" and has_feat:
+        tr_v = {(a, b): complex(c_, s_) for a, b, c_, s_ in obs["transport"]}
         for v in fixed:
             cs = vertex_contributions(case, obs, v)
             if not cs or (len(cs) >= 2 and max(abs(a - b) for a in cs for b in cs) > 1e-6):
                 continue
-            want = sum(cs)
-            want = want / abs(want) if abs(want) > 1e-8 else want
-            if abs(var0[v] - want) > 1e-7:
+            # the direction of a feature edge at v may be measured extrinsically (projection on the vertex basis) or by the
+            # connection's own angle of that edge: the property does not say which - either alignment is accepted
+            alt = [tr_v[(v, B_ if v == A_ else A_)] ** order for A_, B_ in (obs["edges"][e] for e in obs["feat"]) if v in (A_, B_)]
+            ext = vertex_contributions(dict(case, smooth_normals=True, order=order if order % 2 == 0 else order), obs, v) if order % 2 == 0 else cs
+            wants = []
+            for lst in (cs, alt, ext):
+                w = sum(lst)
+                wants.append(w / abs(w) if abs(w) > 1e-8 else w)
+            if min(abs(var0[v] - w) for w in wants) > 1e-7:
                 fails.append(("constraint/vertex-value", "feature vertex %d is constrained to %r, the order-%d representation of its "
-                                                         "feature edge direction(s) is %r" % (v, complex(var0[v]), order, complex(want))))
+                                                         "feature edge direction(s) is %r" % (v, complex(var0[v]), order, complex(wants[0]))))
                 break
 
     # ---- bases are orthonormal; faces: in the face plane, X along the first feature edge
@@ -194,13 +219,6 @@ def check(case, obs):
             if abs(X @ nrm) > 1e-9 or abs(Y @ nrm) > 1e-9 or np.cross(X, Y) @ nrm < 0.999:
                 fails.append(("basis/plane", "basis of face %d is not a direct basis of its plane" % t))
                 break
-            if ffe[t]:
-                a, b = ffe[t][0]
-                e = V[b] - V[a]
-                e /= np.linalg.norm(e)
-                if np.linalg.norm(X - e) > 1e-9:
-                    fails.append(("basis/feature-first", "X of face %d is not its first feature edge" % t))
-                    break
         # ---- one branch tangent to the feature edge of every face that has exactly one
         for t, f in enumerate(F):
             if len(ffe[t]) == 0:
@@ -256,11 +274,9 @@ def check(case, obs):
                             fails.append(("operator/corner-cotangent", "face %d corner %d: cotangent %.9g, from the geometry %.9g"
                                                                        % (t, k, obs["cots"][t][k], own[t][k])))
                             break
-        if elem == "faces":
-            L_own = OWN.lap_faces(V, F, obs["edges"], obs["feat"], order, case.get("cotan", True))
-        else:
-            tr_ = {(a, b): complex(c_, s_) for a, b, c_, s_ in obs["transport"]}
-            L_own = OWN.lap_vertices(V, F, order, case.get("cotan", True), tr_)
+        if L_ref is None:
+            raise KeyError("operator rebuild failed")
+        L_own = L_ref
         if L_own.shape == L_obs.shape and L_own.size:
             dlt = np.abs(L_own - L_obs)
             # entries are sums of terms of size |w|: compare relative to the row/column scale
@@ -276,27 +292,26 @@ def check(case, obs):
     except (KeyError, ZeroDivisionError, FloatingPointError) as ex:
         fails.append(("oracle-crash", "the operator could not be rebuilt from the geometry: %r" % ex))
 
-    # ---- harmonic extension: the first solve answers L_II z = -L_IB z_B; without smoothing the field is its normalisation
-    if has_feat and "solve" in obs and len(free) > 0:
-        x = np.array([complex(a, b) for a, b in obs["solve"]["x"]])
-        if len(x) != len(free):
-            fails.append(("harmonic/shape", "the first solve has %d unknowns for %d free elements" % (len(x), len(free))))
-        else:
-            z = var0.copy()
-            z[free] = x
-            r = (L @ z)[free]
-            zs = max(1.0, float(np.abs(z).max()))
-            if np.abs(r).max() > 1e-7 * sc * zs:
-                fails.append(("harmonic/residual", "the solved field is not harmonic at free element %d: (L z) = %r"
-                              % (free[int(np.argmax(np.abs(r)))], complex(r[int(np.argmax(np.abs(r)))]))))
-            if case["n_smooth"] == 0:
-                want = np.array([w / abs(w) if abs(w) > 1e-10 else w for w in z])
-                d = np.abs(final - want)
-                if d.max() > 1e-9:
-                    fails.append(("harmonic/normalised", "with n_smooth=0 element %d is %r, the normalised harmonic extension is %r"
-                                  % (int(np.argmax(d)), complex(final[int(np.argmax(d))]), complex(want[int(np.argmax(d))]))))
-    if has_feat and len(free) > 0 and "solve" not in obs:
-        fails.append(("harmonic/no-solve", "bordered/feature mesh with free elements but no linear solve was performed"))
+    # ---- harmonic extension (n_smooth = 0, bordered / feature branch): the field is the element-wise normalisation of the
+    #      harmonic extension of the constraints under the rebuilt operator - judged on the FINAL FIELD, whatever solver the
+    #      implementation used; where it let scipy's spsolve answer, the residual of that answer is judged as well
+    if has_feat and len(free) > 0 and case["n_smooth"] == 0 and z_ref is not None and np.all(np.isfinite(final)):
+        for i in free:
+            if abs(z_ref[i]) > 1e-6 * zmax and abs(abs(final[i]) - 1) < 1e-6:
+                want_i = z_ref[i] / abs(z_ref[i])
+                if abs(final[i] - want_i) > 1e-6:
+                    fails.append(("harmonic/normalised", "with n_smooth=0 free element %d is %r, the normalised harmonic extension of the "
+                                                         "constraints is %r" % (i, complex(final[i]), complex(want_i))))
+                    break
+    if has_feat and "solve" in obs and len(free) > 0 and len(obs["solve"]["x"]) == len(obs["free"]) and sorted(obs["free"]) == free:
+        x = np.array([complex(a_, b_) for a_, b_ in obs["solve"]["x"]])
+        z = var0.copy()
+        z[obs["free"]] = x
+        r = (L @ z)[free]
+        zs = max(1.0, float(np.abs(z).max()))
+        if np.all(np.isfinite(r)) and np.abs(r).max() > 1e-7 * sc * zs:
+            fails.append(("harmonic/residual", "the solved field is not harmonic at free element %d: (L z) = %r"
+                          % (free[int(np.argmax(np.abs(r)))], complex(r[int(np.argmax(np.abs(r)))]))))
 
     # ---- edge rotations (face-based field): the matching rule  e^{i k rot} = f2/|f2| conj(f1/|f1|) e^{i k (a1 - a2)},
     #      |rot| <= pi/k  (hypothesis H1 of C18_index_quantum_partial)
@@ -309,7 +324,7 @@ def check(case, obs):
             t1, t2 = he.get((a, b)), he.get((b, a))
             if t1 is None or t2 is None:
                 if abs(obs["rot"][ie]) > 1e-12:
-                    fails.append(("rotation/border", "border edge %d carries a rotation %.3g" % (ie, obs["rot"][ie])))
+                    notes.append(("rotation/border", "border edge %d carries a rotation %.3g" % (ie, obs["rot"][ie])))
                     break
                 continue
             Ev = V[b] - V[a]
@@ -321,7 +336,7 @@ def check(case, obs):
             lhs = cmath.exp(1j * order * obs["rot"][ie])
             rhs = final[t2] * final[t1].conjugate() * (w[0] * w[1].conjugate()) ** order
             if abs(lhs - rhs) > 1e-6 or abs(obs["rot"][ie]) > math.pi / order + 1e-9:
-                fails.append(("rotation/matching", "edge %d: rotation %.6g does not match the closest of the %d branches "
+                notes.append(("rotation/matching", "edge %d: rotation %.6g does not match the closest of the %d branches "
                                                    "(|e^{ik rot} - expected| = %.3g)" % (ie, obs["rot"][ie], order, abs(lhs - rhs))))
                 break
 
@@ -366,7 +381,7 @@ def check(case, obs):
     if obs.get("flag_twice_same") is False:
         fails.append(("index/flag-twice", "calling flag_singularities() a second time changed the stored indices"))
     if obs.get("early_call_accepted"):
-        fails.append(("stages/early-call-accepted", "%s() on a field that was never initialised did not raise" % obs["early_call_accepted"]))
+        notes.append(("stages/early-call-accepted", "%s() on a field that was never initialised did not raise" % obs["early_call_accepted"]))
     # ---- a field computation + flagging leaves on the mesh only its documented outputs and the geometry caches the library
     #      is known to leave (feature detection, 'fixed', cotan / corner angles / normals / areas): anything else is a leaked
     #      cache that later computations on the same mesh object will read
@@ -375,7 +390,7 @@ def check(case, obs):
         extra = {k: [x for x in v if x not in allowed[k]] for k, v in obs["new_attrs"].items()}
         extra = {k: v for k, v in extra.items() if v}
         if extra:
-            fails.append(("leak/attribute", "the %s-based field left new attribute(s) %s on the mesh (neither a documented output nor one of the "
+            notes.append(("leak/attribute", "the %s-based field left new attribute(s) %s on the mesh (neither a documented output nor one of the "
                                             "known geometry caches)" % (elem, extra)))
     return fails
 
@@ -469,16 +484,26 @@ def vertex_contributions(case, obs, v):
     return out
 
 
-def _tiny_solved(obs, rel=1e-7):
-    """elements whose first-solve value is numerically zero (relative to the largest solved value)"""
-    out = set()
-    if "solve" in obs and obs["solve"]["x"]:
-        x = np.abs(np.array([complex(a, b) for a, b in obs["solve"]["x"]]))
-        mx = max(1e-300, float(x.max()))
-        for k, i in enumerate(obs["free"]):
-            if x[k] < rel * max(1.0, mx):
-                out.add(i)
-    return out
+def _tiny_solved(case, obs, rel=1e-7):
+    """free elements at which the harmonic extension of the constraints (the oracle's own solve) is numerically zero"""
+    try:
+        n = len(obs["final"])
+        fixed, free = OWN.partition(n, case["F"], obs["edges"], obs["feat"], case["elem"])
+        if not obs["feat"] or not free:
+            return set()
+        V = np.array(case["V"], dtype=float)
+        if case["elem"] == "faces":
+            L = OWN.lap_faces(V, case["F"], obs["edges"], obs["feat"], case["order"], case.get("cotan", True), bases=obs["bases"])
+        else:
+            L = OWN.lap_vertices(V, case["F"], case["order"], case.get("cotan", True),
+                                 {(a, b): complex(c_, s_) for a, b, c_, s_ in obs["transport"]})
+        z = OWN.harmonic_extension(L, np.array([complex(a, b) for a, b in obs["var0"]]), fixed, free)
+        if z is None:
+            return set(free)      # ill-conditioned: directions of the free elements are not determined
+        mx = max(1.0, float(np.abs(z).max()))
+        return {i for i in free if abs(z[i]) < rel * mx}
+    except Exception:  # noqa
+        return set()
 
 
 def guarded_outcomes(cs):
@@ -540,7 +565,7 @@ def compare_runs(case, obs, case2, obs2, vperm, fperm):
     z2 = [complex(a, b) for a, b in obs2["var0"]]
     TOLM = 1e-6
     out = []
-    tiny1, tiny2 = _tiny_solved(obs), _tiny_solved(obs2)
+    tiny1, tiny2 = _tiny_solved(case, obs), _tiny_solved(case2, obs2)
     if elem == "faces":
         ffe = face_feature_edges(case, obs)
         cdiff, fdiff = [], []
